@@ -5,7 +5,7 @@ CONSTANTS
   FEE = {0, 1}
   MARK = {}
   MaxFills = 4
-INVARIANTS TypeOK SideSize Conservation FeesConserved
+INVARIANTS TypeOK AvgPositive SideSize Conservation FeesConserved
 PROPERTIES ExitIff Ids QmaxAvg FreshUnreal MarkOnlyUnreal
 VIEW View
 CHECK_DEADLOCK FALSE
